@@ -3,7 +3,7 @@
 (* C14 verdict path: trace validation of OBSERVATIONS OF THE REAL          *)
 (* concatenation functions against the law of Concat.tla (part 2).         *)
 (* One state per line; total: a contradicting line prints                  *)
-(* <<"BAD", id, line, reason>>.                                            *)
+(* "BAD|id|line|reason".                                            *)
 (*                                                                         *)
 (* A line is [ev |-> "cat", id, path, kind, chunks, full, splits]:         *)
 (*   chunks  the abstract rendering of the chunk values really built       *)
@@ -16,7 +16,7 @@
 EXTENDS Concat
 
 Trace == ndJsonDeserialize("trace.ndjson")
-ASSUME TLCSet(1, 0) /\ TLCSet(2, 0) /\ TLCSet(3, 0) /\ TLCSet(4, 0) /\ TLCSet(5, 0)
+ASSUME TLCSet(1, 0) /\ TLCSet(2, 0) /\ TLCSet(3, 0) /\ TLCSet(4, 0) /\ TLCSet(5, 0) /\ TLCSet(6, 0)
 
 VARIABLES l
 vars == <<l>>
@@ -27,7 +27,8 @@ ObsReason(e) ==
       full == O(e.full[1])
       outs == {e.full[i].o : i \in 1..Len(e.full)} \cup {e.splits[i].pre.o : i \in 1..Len(e.splits)} \cup {e.splits[i].res.o : i \in 1..Len(e.splits)}
       badSplit == {i \in 1..Len(e.splits) : ~RechunkOK(full, O(e.splits[i].pre), O(e.splits[i].res))}
-  IN IF "panic" \in outs THEN "panic:" \o (IF HasNilValue(e.kind, e.chunks) THEN "nil-map-value" ELSE "other")
+  IN IF Len(e.full) # 3 \/ Len(e.splits) # Max2(n - 1, 0) \/ \E i \in 1..Len(e.splits) : e.splits[i].i # i THEN "incomplete-observation"
+     ELSE IF "panic" \in outs THEN "panic:" \o (IF HasNilValue(e.kind, e.chunks) THEN "nil-map-value" ELSE "other")
      ELSE IF outs \ {"ok", "err"} # {} THEN "malformed-outcome"
      ELSE IF \E i \in 2..Len(e.full) : O(e.full[i]) # full THEN "nondeterministic:" \o (IF HasNilValue(e.kind, e.chunks) THEN "nil-map-value" ELSE "other")
      ELSE IF badSplit # {} THEN
@@ -53,11 +54,11 @@ Next == /\ l <= Len(Trace)
                r == ObsReason(e)
                a == Agrees(e, AsIs)
                f == Agrees(e, Fixed)
-           IN /\ (r # "" => PrintT(<<"BAD", e.id \o "/" \o e.path, l, r>>))
+           IN /\ (r # "" => PrintT("BAD|" \o e.id \o "/" \o e.path \o "|" \o ToString(l) \o "|" \o r) /\ Bump(6))   \* one string: TLC wraps long tuples
               /\ IF a /\ f THEN Bump(2) ELSE IF a THEN Bump(3) ELSE IF f THEN Bump(4)
-                 ELSE Bump(5) /\ PrintT(<<"DRIFT", e.id \o "/" \o e.path, l, e.full[1].o>>)
+                 ELSE Bump(5) /\ PrintT("DRIFT|" \o e.id \o "/" \o e.path \o "|" \o ToString(l) \o "|" \o e.full[1].o)
 Spec == Init /\ [][Next]_vars
 
 HW == TLCSet(1, Max2(l, TLCGet(1)))
-Post == PrintT(<<"HW", TLCGet(1)>>) /\ PrintT(<<"STAT", TLCGet(2), TLCGet(3), TLCGet(4), TLCGet(5)>>)
+Post == PrintT(<<"HW", TLCGet(1)>>) /\ PrintT(<<"STAT", TLCGet(2), TLCGet(3), TLCGet(4), TLCGet(5), TLCGet(6)>>)
 ================================================================================
